@@ -297,15 +297,31 @@ class Project:
         return diffs
 
 
-def replay_history(prog, hist, root, bindir, trace=None, log_mode=None, jflag=None, cmd_timeout=60):
-    """Execute one specification history.  Returns (ok, report) where report is a list of
-    per-step dicts (with 'diffs' on mismatches)."""
+def step_input(step):
+    """the user-visible input part of a history step"""
+    a = step['a']
+    if a == 'cmd':
+        return ('cmd', step['kind'], tuple(step['targs']), bool(step['keep']))
+    if a == 'query':
+        return ('query', step['kind'])
+    return (a, step['n'], step.get('v'))
+
+
+def history_input(h):
+    return tuple(step_input(s) for s in h)
+
+
+def replay_group(prog, alts, root, bindir, trace=None, log_mode=None, jflag=None, cmd_timeout=60):
+    """Execute one user-level history.  `alts` are all specification behaviours with that
+    input (they differ where the implementation is legitimately nondeterministic, e.g. the
+    poll order of wait_for); the real execution must agree, step by step, with at least one.
+    Returns (ok, report)."""
     pj = Project(prog, root, bindir, trace=trace, log_mode=log_mode)
     report = []
-    ok = True
-    for step in hist:
+    live = list(alts)
+    for i, step in enumerate(alts[0]):
         a = step['a']
-        entry = {'step': {k: v for k, v in step.items() if k != 'snap'}}
+        entry = {'input': list(step_input(step))}
         if a == 'write':
             pj.write_user(step['n'], step['v'])
         elif a == 'rm':
@@ -314,48 +330,62 @@ def replay_history(prog, hist, root, bindir, trace=None, log_mode=None, jflag=No
             pj.write_do(step['n'], step['v'])
         elif a == 'cmd':
             argv = ['redo-ifchange' if step['kind'] == 'ifchange' else 'redo']
-            if step['keep']:
-                if step['kind'] == 'redo':
-                    argv.append('-k')
+            if step['keep'] and step['kind'] == 'redo':
+                argv.append('-k')
             if jflag and step['kind'] == 'redo':
                 argv.append('-j%d' % jflag)
             argv += list(step['targs'])
-            extra = {}
-            if step['keep']:
-                extra['REDO_KEEP_GOING'] = '1'
-            if jflag and step['kind'] != 'redo':
-                # redo-ifchange has no -j flag; top-level parallelism comes from `redo -jN`
-                pass
+            extra = {'REDO_KEEP_GOING': '1'} if step['keep'] else {}
             rc, so, se, started, to = pj.run(argv, timeout=cmd_timeout, extra_env=extra)
-            diffs = []
+            snap = pj.snapshot()
+            common_diffs = []
             if to:
-                diffs.append('command did not terminate within %ds' % cmd_timeout)
-            if rc != step['rc']:
-                diffs.append('exit status: have %s, spec says %s' % (rc, step['rc']))
-            if sorted(started) != sorted(step['ran']):
-                diffs.append('scripts run: have %s, spec says %s' % (started, list(step['ran'])))
+                common_diffs.append('command did not terminate within %ds' % cmd_timeout)
             if 'panicked' in se:
-                diffs.append('panic: ' + se[se.find('panicked'):][:300])
-            diffs += pj.compare(pj.snapshot(), step['snap'])
-            entry.update({'argv': argv, 'rc': rc, 'started': started, 'stderr': se[-2000:]})
-            if diffs:
-                entry['diffs'] = diffs
-                ok = False
+                common_diffs.append('panic: ' + se[se.find('panicked'):][:300])
+            best = None
+            nxt = []
+            for h in live:
+                st = h[i]
+                diffs = list(common_diffs)
+                if rc != st['rc']:
+                    diffs.append('exit status: have %s, spec says %s' % (rc, st['rc']))
+                if sorted(started) != sorted(st['ran']):
+                    diffs.append('scripts run: have %s, spec says %s' % (started, list(st['ran'])))
+                diffs += pj.compare(snap, st['snap'])
+                if not diffs:
+                    nxt.append(h)
+                elif best is None or len(diffs) < len(best):
+                    best = diffs
+            entry.update({'argv': argv, 'rc': rc, 'started': started, 'stderr': se[-2000:],
+                          'alternatives': len(live)})
+            if not nxt:
+                entry['diffs'] = best
+                report.append(entry)
+                return False, report
+            live = nxt
         elif a == 'query':
             argv = ['redo-' + step['kind']]
             rc, so, se, started, to = pj.run(argv, timeout=cmd_timeout)
             got = sorted(x for x in so.split('\n') if x)
-            want = sorted(step['out'])
-            diffs = []
-            if rc != 0:
-                diffs.append('query exit status %s' % rc)
-            if got != want:
-                diffs.append('%s output: have %s, spec says %s' % (argv[0], got, want))
-            entry.update({'argv': argv, 'rc': rc, 'out': got, 'stderr': se[-1000:]})
-            if diffs:
-                entry['diffs'] = diffs
-                ok = False
+            best = None
+            nxt = []
+            for h in live:
+                diffs = []
+                if rc != 0:
+                    diffs.append('query exit status %s: %s' % (rc, se[-300:]))
+                want = sorted(h[i]['out'])
+                if got != want:
+                    diffs.append('%s output: have %s, spec says %s' % (argv[0], got, want))
+                if not diffs:
+                    nxt.append(h)
+                elif best is None:
+                    best = diffs
+            entry.update({'argv': argv, 'rc': rc, 'out': got, 'alternatives': len(live)})
+            if not nxt:
+                entry['diffs'] = best
+                report.append(entry)
+                return False, report
+            live = nxt
         report.append(entry)
-        if not ok:
-            break
-    return ok, report
+    return True, report
